@@ -238,3 +238,94 @@ Proof.
 Qed.
 
 End T.
+
+(* ================================================================== xtc as found, general form of the defect:
+   after ANY seek (0 < skip < T) with ANY stride > 1 and ANY chunk >= 1, on ANY file, md.iterload never
+   ends: every read_as_traj returns at least one frame, for ever. *)
+Section XtcDiverges.
+Context {A : Type}.
+Variable junk : A.
+
+Definition XJ (str T c p : nat) : Prop := (p = c /\ c < T) \/ T <= c + str.
+
+Lemma xtc_eff_loop str (f : list A) ai : 1 < str -> forall m c p, XJ str (length f) c p ->
+  exists c' p' l, xtc_loop junk m true str (length f) c p f ai = (c', p', l) /\ XJ str (length f) c' p' /\
+                  (1 <= m -> l <> []).
+Proof.
+  intros Hs. induction m as [|m IH]; intros c p HJ.
+  - exists c, p, []. repeat split; [assumption|lia].
+  - cbn [xtc_loop]. cbn zeta. replace (1 <? str) with true by (symmetry; apply Nat.ltb_lt; lia).
+    destruct (c + str <? length f) eqn:E.
+    + apply Nat.ltb_lt in E. destruct HJ as [(Hp & Hc)|HJ]; [|lia]. subst p.
+      replace (c <? length f) with true by (symmetry; apply Nat.ltb_lt; lia).
+      destruct (IH (c + str) (c + str)) as (c' & p' & l & El & HJ' & _); [left; split; [reflexivity|lia]|].
+      rewrite El. eexists _, _, _. split; [reflexivity|]. split; [exact HJ'|]. intros _. discriminate.
+    + apply Nat.ltb_ge in E. eexists _, _, _. split; [reflexivity|]. split; [right; lia|]. intros _. discriminate.
+Qed.
+
+Lemma xtc_eff_step str (f : list A) ai c : 1 < str -> 1 <= c ->
+  forall s, offs s = true -> XJ str (length f) (cnt s) (pos s) ->
+    exists s' x l, rd junk FXtc f s (Some c) str ai = (s', Ok (x :: l)) /\ offs s' = true /\
+                   XJ str (length f) (cnt s') (pos s').
+Proof.
+  intros Hs Hc s Ho HJ. cbn [rd]. unfold xtc_read. rewrite Ho.
+  replace (1 <? str) with true by (symmetry; apply Nat.ltb_lt; lia). cbn [andb].
+  destruct (xtc_eff_loop str f ai Hs c (cnt s) (pos s) HJ) as (c' & p' & l & El & HJ' & Hne).
+  rewrite El. specialize (Hne Hc). destruct l as [|x r]; [congruence|].
+  eexists _, x, r. split; [reflexivity|]. split; [reflexivity|exact HJ'].
+Qed.
+
+Lemma xtc_iter_diverges str (f : list A) ai c : 1 < str -> 1 <= c ->
+  forall fuel s, offs s = true -> XJ str (length f) (cnt s) (pos s) ->
+    snd (iter_loop fuel (fun s => rd junk FXtc f s (Some c) str ai) s) = Diverged.
+Proof.
+  intros Hs Hc. set (step := fun s => rd junk FXtc f s (Some c) str ai).
+  induction fuel as [|fu IH]; intros s Ho HJ; [reflexivity|].
+  destruct (xtc_eff_step str f ai c Hs Hc s Ho HJ) as (s' & x & l & E & Ho' & HJ').
+  change (step s = (s', Ok (x :: l))) in E. cbn [iter_loop]. rewrite E.
+  specialize (IH s' Ho' HJ'). destruct (iter_loop fu step s') as [ls e]. exact IH.
+Qed.
+
+Theorem xtc_iterload_after_skip_diverges g (f : list A) c str k ai :
+  1 <= c -> 1 < str -> 0 < k < length f ->
+  forall fuel, snd (iterload junk g FXtc f c str k ai fuel) = Diverged.
+Proof.
+  intros Hc Hs Hk fuel. unfold iterload.
+  replace (c =? 0) with false by (symmetry; apply Nat.eqb_neq; lia).
+  replace (0 <? k) with true by (symmetry; apply Nat.ltb_lt; lia).
+  cbn [sk]. unfold xdr_seek. replace (k <? length f) with true by (symmetry; apply Nat.ltb_lt; lia).
+  apply xtc_iter_diverges; try assumption; [reflexivity|]. left. cbn [cnt pos]. split; [reflexivity|lia].
+Qed.
+
+End XtcDiverges.
+
+(* ================================================================== atoms commute, stated on the models that satisfy the property *)
+Section AtomsCommute.
+Context {A : Type}.
+Variable junk : A.
+
+Lemma atoms_commute_from_spec g fm (f : list A) c str k sel fuel :
+  iterload junk g fm f c str k (Some sel) fuel = spec_iterload f c str k (Some sel) ->
+  iterload junk g fm f c str k None fuel = spec_iterload f c str k None ->
+  iterload junk g fm f c str k (Some sel) fuel =
+  (map (map sel) (fst (iterload junk g fm f c str k None fuel)), snd (iterload junk g fm f c str k None fuel)).
+Proof. intros E1 E2. rewrite E1, E2. apply spec_iterload_atoms. Qed.
+
+Theorem atoms_commute_right_readers g fm (f : list A) c str k sel fuel :
+  1 <= c -> 1 <= str -> length f < fuel ->
+  (fm = FArr true \/ fm = FNc \/ (fm = FSeq /\ k <= length f) \/ (fm = FTrr /\ k < length f)) ->
+  iterload junk g fm f c str k (Some sel) fuel =
+  (map (map sel) (fst (iterload junk g fm f c str k None fuel)), snd (iterload junk g fm f c str k None fuel)).
+Proof.
+  intros Hc Hs Hf [E|[E|[[E Hk]|[E Hk]]]]; subst fm; apply atoms_commute_from_spec.
+  - now apply iterload_arr_fix.
+  - now apply iterload_arr_fix.
+  - now apply iterload_nc.
+  - now apply iterload_nc.
+  - now apply iterload_seq.
+  - now apply iterload_seq.
+  - now apply iterload_trr.
+  - now apply iterload_trr.
+Qed.
+
+End AtomsCommute.
